@@ -98,7 +98,14 @@ CHECKS.update({
             "Trusted: vp/sched.py (cooperative scheduler, shims, the simulated kernel follows fcntl(2): per-process record locks, replaced on re-lock, all dropped on any close of the file, EDEADLK on cycles). The real kernel and CPython's own Lock/Condition are not under test.", "DESIGN.md §3 C15"),
 })
 
-READY = ["C15", "C01", "C03", "C04", "C06", "C07", "C08", "C05", "C10", "C11", "C13", "C14", "C17", "C18", "C19", "C20"]
+CHECKS.update({
+    "C12": ("exploration",
+            "round-trip and key monitors on the real to_dict / from_dict / ModelHash code over history products, generated control streams and generated components; the same models rebuilt in fresh interpreters under different PYTHONHASHSEED values (cross-process determinism)",
+            "Every component reachable from a model (and components generated through the public create() functions with option values the histories never set) is serialised, JSON-encoded, decoded, rebuilt and compared with pharmpy's own equality; the generic code is parsed back; content-preserving variants (name, description, path, format, dict round trip, dataset copy, compartment graph rebuilt in another insertion order, rename round trip) must keep the key and 11 single-point content mutations must change it; batches of models are rebuilt in three fresh interpreters with other hash seeds and key, dataset key and dictionary digest compared with the parent's.",
+            "Trusted: pharmpy's own __eq__ as the equality the property is stated in; JSON-compatible read modulo tuple==list; categories with non-string keys are outside the documented type and not generated.", "DESIGN.md §3 C12"),
+})
+
+READY = ["C12", "C15", "C01", "C03", "C04", "C06", "C07", "C08", "C05", "C10", "C11", "C13", "C14", "C17", "C18", "C19", "C20"]
 
 NOT_BUILT = "check not built yet in this session (design in DESIGN.md); not claimed"
 
